@@ -96,8 +96,8 @@ case "$cmd" in
     echo "setup ok"
     ;;
   replay)
-    case "$(grep -o '"property": *"C[0-9]*"' "$2" | grep -o 'C[0-9]*')" in
-      C07|C09|C20)
+    case "$(grep -o '"property": *"C[0-9]*S\?"' "$2" | grep -o 'C[0-9]*S\?')" in
+      C07|C09|C20|C15S)
         build_sched
         GOMAXPROCS=1 "$SCRATCH/vharness_i" replay "$2"
         exit $?;;
@@ -115,6 +115,12 @@ case "$cmd" in
   C07|C09)
     build_sched
     GOMAXPROCS=${VERIF_GOMAXPROCS:-1} "$SCRATCH/vharness_i" "$cmd" "$tier"
+    exit $?
+    ;;
+  C15)
+    build_plain
+    build_sched
+    VERIF_SCHED_BIN="$SCRATCH/vharness_i" "$SCRATCH/vharness" "$cmd" "$tier"
     exit $?
     ;;
   C11)
